@@ -12,6 +12,9 @@ checks = {
  "C03": dict(level=EXPL, ref="§C03", tech="bounded-exhaustive enumeration (operators x boundary grid^2 fold table; trees/patterns with probes x 8 minify subsets), differential execution in V8",
    text="complete constant-folding table over a 46-56 value boundary grid for all binary/unary/conditional operators compared with V8's own evaluation; expression trees, statement skeletons and ~560 minifier trigger patterns with side-effect probes under 8 minify flag subsets (+define/pure/drop/drop-labels against generator-side references)",
    note="V8 (Node 20) is the reference semantics; documented minifier assumptions (function names without keep-names, TDZ) are not observed"),
+ "C04": dict(level=EXPL, ref="§C04", tech="bounded-exhaustive enumeration of unused top-level statements (singles and pairs over a ~150 statement alphabet) x tree-shaking modes, differential execution against native loading",
+   text="every unused statement of the alphabet (hidden probes in every syntactic position the purity analysis inspects) is added to a module with used exports, singly and in pairs; bundles with tree shaking default/true/false x esm/cjs/iife x minify must produce the native evaluation log, error class and export surface; annotation cases allow exactly the generator-marked lines to disappear",
+   note="Node 20 native execution is the reference; strict-mode loss when converting ESM to cjs/iife is outside this property"),
  "C05": dict(level=EXPL, ref="§C05", tech="bounded-exhaustive enumeration of lowerable constructs in all positions x targets, differential execution (native Node 22 vs lowered output)",
    text="every operator/construct of the table in every statement context, lowering-relevant (parent,slot,child) pairs, ~130 lowering templates x operand trees; each program runs natively in Node 22 and its esbuild output for es2015..es2022/esnext/minified/each single feature unsupported runs in the same engine; call logs (universal logging proxies), this/arguments/super observations, results and thrown classes must agree; ten genuine lowering deviations are recorded as known findings with exact classifiers",
    note="Node 22 is the native reference; microtask turn counts, ES5, decorators and `using` excluded; meta-object-protocol details (ownKeys order, .call lookups on proxies) are not observed"),
